@@ -68,11 +68,11 @@ pub fn spaces(tier: Tier) -> Vec<Space<'static>> {
         let d = &d2;
         let rows: Vec<Vec<i8>> = (0..n)
             .into_par_iter()
-            .map(|i| (0..n).map(|j| match jsonb::compare(&d.bytes[i], &d.bytes[j]) { Ok(o) => o2i(o), Err(_) => 2 }).collect())
+            .map(|i| (0..n).map(|j| match guard(|| jsonb::compare(&d.bytes[i], &d.bytes[j])) { Ok(Ok(o)) => o2i(o), _ => 2 }).collect())
             .collect();
         let m: Vec<i8> = rows.into_iter().flatten().collect();
         if m.iter().any(|x| *x == 2) {
-            acc.vio("compare:error-on-valid-documents", || json!({"note": "matrix has error cells"}));
+            acc.vio("compare:error-or-panic-on-valid-documents", || json!({"note": "matrix has error/panic cells"}));
             return;
         }
         acc.evals((n * n) as u64);
